@@ -174,15 +174,21 @@ class CallMixin:
     def ev_DictComp(self, node, st, ctx):
         vars_, g, elt, it = self.comp_parts(node, st, ctx)
         kx, vx = elt.items
-        if len(vars_) != 1 or kx.ty.kind != "str":
+        if len(vars_) != 1 or kx.ty.kind not in ("str", "val"):
             raise Unsupported("dict comprehension form")
-        # only the key-preserving form {k: f(k,v) for k,v in d.items() if c} / {x: i for i,x in enumerate(l)}
         kk = vars_[0]
         vty = vx.ty if vx.ty.kind in ("int", "str", "bool") and vx.none is None else VAL
-        dty = Dict(STR, vty)
+        kty = kx.ty
+        hint = self.hint_dict
+        if hint is not None:
+            kty, vty = hint.args
+        dty = Dict(kty, vty)
+        ksort = kty.sort()
         r = st.new_ref()
-        if z3.eq(kx.t, kk):
-            nk = z3.Const(fresh_name("k"), S)
+        kxt = self.coerce(kx, kty, st).t
+        if kx.ty.kind == "str" and z3.eq(kx.t, kk):
+            # key-preserving form {k: f(k, v) for k, v in d.items() if c}
+            nk = z3.Const(fresh_name("k"), ksort)
             dom = z3.Lambda([nk], z3.substitute(g, (kk, nk)))
             vt = self.coerce(vx, vty, st).t
             val = z3.Lambda([nk], z3.If(z3.substitute(g, (kk, nk)), z3.substitute(vt, (kk, nk)), default_of(vty.sort())))
@@ -191,19 +197,22 @@ class CallMixin:
         # general: key computed from a list position; later positions win
         if it.ty.kind not in ("list", "enumerate"):
             raise Unsupported("dict comprehension with computed keys over %r" % it.ty)
-        nk = z3.Const(fresh_name("k"), S)
+        nk = z3.Const(fresh_name("k"), ksort)
         j = kk
-        dom_f = z3.Function(fresh_name("dcdom"), S, B)
-        val_f = z3.Function(fresh_name("dcval"), S, vty.sort())
+        dom_a = z3.Const(fresh_name("dcdom"), z3.ArraySort(ksort, B))
+        val_a = z3.Const(fresh_name("dcval"), z3.ArraySort(ksort, vty.sort()))
         vt = self.coerce(vx, vty, st).t
         j2 = z3.Int(fresh_name("j"))
-        st.assume(z3.ForAll([nk], dom_f(nk) == z3.Exists([j], z3.And(g, kx.t == nk))))
-        # value of the last position with that key
-        st.assume(z3.ForAll([j], z3.Implies(
-            z3.And(g, z3.Not(z3.Exists([j2], z3.And(j2 > j, z3.substitute(g, (j, j2)), z3.substitute(kx.t, (j, j2)) == kx.t)))),
-            val_f(kx.t) == vt)))
-        st.assume(z3.ForAll([nk], z3.Implies(z3.Not(dom_f(nk)), val_f(nk) == default_of(vty.sort()))))
-        st.set_dict(dty, r, z3.Lambda([nk], dom_f(nk)), z3.Lambda([nk], val_f(nk)))
+        wit = z3.Function(fresh_name("dcwit"), ksort, I)
+        # every position contributes its key; every key in the domain comes from a position
+        st.assume(z3.ForAll([j], z3.Implies(g, dom_a[kxt]), patterns=[z3.substitute(kxt, (j, j))] if not z3.is_const(kxt) else None))
+        st.assume(z3.ForAll([nk], z3.Implies(dom_a[nk], z3.And(z3.substitute(g, (j, wit(nk))), z3.substitute(kxt, (j, wit(nk))) == nk,
+                                                               val_a[nk] == z3.substitute(vt, (j, wit(nk))),
+                                                               z3.ForAll([j2], z3.Implies(z3.And(j2 > wit(nk), z3.substitute(g, (j, j2))),
+                                                                                          z3.substitute(kxt, (j, j2)) != nk)))),
+                            patterns=[dom_a[nk]]))
+        st.assume(z3.ForAll([nk], z3.Implies(z3.Not(dom_a[nk]), val_a[nk] == default_of(vty.sort()))))
+        st.set_dict(dty, r, dom_a, val_a)
         return SV(dty, r)
 
     # ------------------------------------------------------------------ calls
